@@ -138,8 +138,9 @@ def diff (s : St) (c : Nat) : Option Int :=
 
 /-! ### `Range` (bigbuff.go) and `Buffer.Range` as functions over a script of callback outcomes -/
 
-/-- callback outcomes: continue / stop / panic / `put v`: the callback Puts `v` into the buffer, then continues -/
-inductive Cb | continue_ | stop | panic | put (v : Nat)
+/-- callback outcomes: continue / stop / panic / `put v`: the callback Puts `v` into the buffer, then continues /
+    `take`: the callback itself reads the next value of the SAME consumer (a consumer shared with other users), then continues -/
+inductive Cb | continue_ | stop | panic | put (v : Nat) | take
 deriving DecidableEq, Repr
 
 inductive RangeEnd
@@ -168,7 +169,7 @@ def range (bufferRange : Bool) (c : Nat) : List Cb → St → Visits → St × V
       match cb with
       | .panic => ((rollback s1 c).1, vis, .panicked)
       | cb =>
-        let s1 := match cb with | .put v => (put s1 [v]).1 | _ => s1
+        let s1 := match cb with | .put v => (put s1 [v]).1 | .take => (get s1 c).1 | _ => s1
         match commit s1 c with
         | (s2, some e) => ((rollback s2 c).1, vis, .commitErr e)
         | (s2, none) =>
